@@ -101,6 +101,11 @@ def CASES(tier, seed):
     quick = tier == 'quick'
     opsA = [(n, v) for n, s in C.OPS.items() if 'A' in s.tiers for v in P1._variants(s, tier) if (n, v) not in C.TIER_A_EXCLUDED]
     opsB = [(n, v) for n, s in C.OPS.items() if 'B' in s.tiers for v in s.variants]
+    # ipurge_zeros with a positive cutoff compares sqrt variables (block norms) with the cutoff; followed by the consumers this
+    # occasionally stalls z3 beyond any case limit.  Its values are C01's subject; C02 keeps the cutoff-0 variant (same code path
+    # for _qdata / flags) and C01 / C03 keep both.
+    opsA = [o for o in opsA if tuple(o) != ('ipurge_zeros', 'cutoff')]
+    opsB = [o for o in opsB if tuple(o) != ('ipurge_zeros', 'cutoff')]
     OA = dict(max_paths=80000, max_wall_s=220 if quick else 1600, validate_paths=2, hard_timeout_s=235 if quick else 1750)
     structsA = P1.structs_A(tier)
     c_all = dict(subset='all', prestate='reversed', legflags='computed', opt_level=1)
